@@ -98,6 +98,12 @@ func tAnd(a, b *Term) *Term {
 	if a == b {
 		return a
 	}
+	// keep conjunctions flat (n-ary) so that long accumulated conjunctions print in linear size
+	if a.Op == "and" && len(a.Args) < 4096 {
+		args := make([]*Term, len(a.Args), len(a.Args)+1)
+		copy(args, a.Args)
+		return mk("and", 0, append(args, b)...)
+	}
 	return mk("and", 0, a, b)
 }
 
